@@ -385,7 +385,27 @@ def rule_eat_blanks(ctx):
             r.check(bool(inside), "can_increase_nl/%s-has-priority/%s" % (opt, ",".join(sorted(set(re.findall(r"options::(\w+)\(\)", " ".join(c for c, pol in cs if pol is True)))))[:60]),
                     db.loc(ci, n), "with `%s` and %s set, can_increase_nl() can still return true here (under %s): the blank lines next to the brace "
                     "are put back after they were eaten" % (brace_fact, opt, [c for c, pol in cs if pol is True][-3:]))
-    r.floor(5)
+    # the veto is worth something only if it is asked: do_blank_lines() asks it for the newline it is looking at (and forces
+    # that one to 1); every count it sets on *another* newline must be controlled by can_increase_nl(<that newline>) too
+    dbl = db.fn("do_blank_lines")
+    r.names(dbl, "pc", "prev", "next")
+    veto = [n for n in dbl.all_nodes() if n["k"] == "call" and n.get("c") == "can_increase_nl" and n.get("a")]
+    r.require(any(expr_str(dbl, n["a"][0]) == "pc" for n in veto), "do_blank_lines no longer asks can_increase_nl(pc)")
+    n_other = 0
+    for n in dbl.all_nodes():
+        if n["k"] != "call" or n.get("c") not in ("blank_line_set",) or not n.get("a"):
+            continue
+        x = expr_str(dbl, n["a"][0])
+        if x == "pc":
+            continue
+        n_other += 1
+        r.seen()
+        cs = _conds(dbl, n)
+        r.check(("can_increase_nl(%s)" % x, True) in cs, "do_blank_lines/blank_line_set(%s, %s)/asks-can_increase_nl" % (x, expr_str(dbl, n["a"][1]).split("::")[-1]),
+                db.loc(dbl, n), "the count of `%s` (not the newline do_blank_lines() is looking at) is raised without can_increase_nl(%s): next to a "
+                "brace that eats blank lines they are put back" % (x, x))
+    r.require(n_other >= 3, "only %d blank_line_set() calls on another newline than pc" % n_other)
+    r.floor(8)
 
 
 def rule_runs_not_chunks(ctx):
